@@ -1,11 +1,11 @@
 package mon
 
 import (
-	"os"
 	"encoding/binary"
 	"encoding/json"
 	"fmt"
 	"math/big"
+	"os"
 	"sort"
 	"strings"
 
